@@ -15,6 +15,9 @@ RULES = {
     'SYNC-TRANSPORT': 'sync() stores the coroutine\'s exception and re-raises it in the calling thread; otherwise returns its result',
     'META-PASS': 'where the emitted data derives from the current element only and the node buffers no metadata, the '
                  'metadata argument of _emit is the unmodified metadata parameter (one-to-many: exactly the last piece)',
+    'AWAITABLE-RESULT': 'a node that hands what its user function returned back to the emitter (sink) drops that result only '
+                        'after the complete awaitability test (gen.isawaitable / inspect.isawaitable) said no - never after a '
+                        'narrower one (is_future, iscoroutine, isinstance(..., Future)), which lets other awaitables escape unawaited',
     'META-FLAT': 'every metadata argument of _emit is a flat list of dicts',
     'PAIRED-BUFFER': 'an element buffer and its metadata twin are mutated under the same conditions, in the same order',
 }
@@ -74,8 +77,11 @@ def check_propagate(ctx, R, modules=ANCHOR_MODULES_C03, note_modules=('streamz.r
                     # segment until the same site is reached again (next loop iteration)
                     nxt = next((j for j in idx if j > i), len(evs))
                     seg = evs[i + 1:nxt + 1] if nxt < len(evs) else evs[i + 1:]
-                    ok = any(e.kind in ('SUS', 'RETURN') and e.b and tag in e.b for e in seg)
-                    if not ok:
+                    # (inside a coroutine `return <emit result>` makes the list the *value* of the coroutine's future: nobody
+                    # awaits its members - a native-coroutine consumer never runs - so only an await counts there)
+                    kinds = ('SUS',) if fn.is_coro else ('SUS', 'RETURN')
+                    ok = any(e.kind in kinds and e.b and tag in e.b for e in seg)
+                    if not ok and not fn.is_coro:
                         # accumulated into a local list that is returned later (flatten, zip_latest)
                         ok = any(e.kind == 'LADD' and e.b and tag in e.b for e in seg) and \
                             any(e.kind == 'RETURN' and e.b and tag in e.b for e in evs[i + 1:])
@@ -534,3 +540,43 @@ def check_meta_flat(ctx, R, classes, rule='META-FLAT'):
                      % (e.a, sh if not isinstance(sh, tuple) else sh[0]) if not ok else '', ctx.where(fn, e.line),
                      fmt_path(evs) if evs else None)
     R.count('meta_shape_undecided', und)
+
+
+FULL_AWAITABLE_TESTS = ('isawaitable', 'gen.isawaitable', 'inspect.isawaitable')
+
+
+def check_awaitable_result(ctx, R, classes):
+    """see RULES['AWAITABLE-RESULT'].  Sites = update() methods with a path that returns the user callable's own result."""
+    for cls in classes:
+        up = cls.find('update')
+        if up is None or up.cls is ctx.model.stream or up.is_coro:
+            continue
+        paths = [(st, status) for st, status in ctx.paths(up, cls) if status != 'raise']
+
+        def ret_is_result(st):
+            rets = [e for e in st.events if e.kind == 'RETURN' and e.depth == 0]
+            return bool(rets) and any(t.startswith('ucall:') for t in (rets[-1].b or ()))
+        if not any(ret_is_result(st) for st, _ in paths):
+            continue
+        con = ctx.construct(up)
+        bad, n = None, 0
+        for st, status in paths:
+            evs = st.events
+            if not any(e.kind == 'UCALL' for e in evs) or ret_is_result(st):
+                continue
+            n += 1
+            # the result is dropped on this path: a complete awaitability test of it must have been false
+            ok = False
+            for e in evs:
+                if e.kind == 'COND' and e.b is False and isinstance((e.x or {}).get('node'), ast.Call):
+                    c = e.x['node']
+                    if src(c.func) in FULL_AWAITABLE_TESTS and len(c.args) == 1 and any(
+                            t.startswith('ucall:') for t in ((e.x or {}).get('arg_tags') or ())):
+                        ok = True
+            if not ok:
+                bad = evs
+        if n:
+            R.ob('AWAITABLE-RESULT', con, 'result', bad is None,
+                 'the user function\'s result is dropped on a path that has not found gen.isawaitable(result) false: an awaitable '
+                 'of a kind the narrower test does not know escapes unawaited (no backpressure, a native coroutine never runs)',
+                 ctx.where(up, up.node.lineno), fmt_path(bad) if bad else None, n)
